@@ -29,9 +29,9 @@ def run(report):
     tier = report.tier
     args = ['--seed', str(report.seed)]
     if tier == 'quick':
-        args += ['--bases', '0,1,3,5,8,9,10,11', '--cap', '7000', '--random', '3000', '--versions', '3.9']
+        args += ['--bases', '0,1,3,5,8,9,10,11,12,13', '--cap', '7000', '--random', '3000', '--versions', '3.9']
     else:
-        args += ['--bases', '0,1,2,3,4,5,6,7,8,9,10,11', '--cap', '40000', '--random', '30000', '--versions', '3.6,3.9,3.14']
+        args += ['--bases', '0,1,2,3,4,5,6,7,8,9,10,11,12,13', '--cap', '40000', '--random', '30000', '--versions', '3.6,3.9,3.14']
     res = B.run_script('harness.c04_run', args)
     B.bounded_obligations(report, 'C04', NAMES, res, functions=['parso.python.diff.DiffParser.update', 'parso.grammar.Grammar.parse'])
     report.assume(ASSUME_BOUNDED,
